@@ -262,6 +262,39 @@ pub fn run(ctx: &Ctx) {
     graphs(ctx);
     overlay(ctx);
     cross_solution(ctx);
+    collisions(ctx);
+}
+
+/// Declared and computed mutations that overlap: a computed mutation may not repeat a slot (contract, key) that any solution of the
+/// set declares or computes, whatever the order of the solutions; the returned set keeps one mutation per slot.
+fn collisions(ctx: &Ctx) {
+    let leaf = |a: u8| Node { edge_start: u16::MAX, program_address: ca(a) };
+    for same_contract in [true, false] {
+        for same_key in [true, false] {
+            for declared_first in [true, false] {
+                for both_computed in [false, true] {
+                    let id = format!("collide/{}/{}/{}/{}", same_contract as u8, same_key as u8, declared_first as u8, both_computed as u8);
+                    if !ctx.want(&id) {
+                        continue;
+                    }
+                    let mut progs = BTreeMap::new();
+                    progs.insert(ca(1), bytes(data_output(&[5], &[50])));
+                    progs.insert(ca(2), bytes(data_output(&[if same_key { 5 } else { 6 }], &[60])));
+                    progs.insert(ca(3), bytes(vec![push(1)]));
+                    let mut preds = BTreeMap::new();
+                    preds.insert(ca(0xA0), Predicate { nodes: vec![leaf(1)], edges: vec![] });
+                    preds.insert(ca(0xA1), Predicate { nodes: vec![leaf(if both_computed { 2 } else { 3 })], edges: vec![] });
+                    let computing = one_solution(ca(0xA0), ca(0xC0), vec![]);
+                    let other_contract = if same_contract { ca(0xC0) } else { ca(0xC1) };
+                    let other = one_solution(ca(0xA1), other_contract, if both_computed { vec![] } else { vec![Mutation { key: vec![if same_key { 5 } else { 6 }], value: vec![70] }] });
+                    let solutions = if declared_first { vec![other, computing] } else { vec![computing, other] };
+                    let case = Case { pre: PreState::default(), set: SolutionSet { solutions }, preds, progs };
+                    run_case(ctx, &id, "a computed mutation never repeats a slot (contract, key) declared or computed anywhere in the set, in every order of the solutions; otherwise it is part of the returned set",
+                        &case, || format!("same_contract={same_contract} same_key={same_key} other-solution-first={declared_first} other mutation computed={both_computed}"));
+                }
+            }
+        }
+    }
 }
 
 /// Every edge set over n nodes (n <= 3 quick, n <= 4 thorough; plus a deterministic sample of n = 4 in quick), producers and exact-input
